@@ -975,7 +975,7 @@ def run(ctx):
     descs = corpus()
     n_corpus = len(descs)
     mix = (["plain"] * 3 + ["symattr"] * 2 + ["comp"] * 3 + ["delay"] * 2 + ["tensor"] + ["lowrank"])
-    n_rand = ctx.scaled(70, 1800)
+    n_rand = ctx.scaled(60, 1800)
     for i in range(n_rand):
         descs.append(gen_model(ctx.rng, mix[i % len(mix)]))
     # the listed known findings ride along in the same child (S4 without extra start-ups)
